@@ -124,6 +124,9 @@ pub struct Ctx {
     pub max_shrink_iters: u32,
     /// scale factor applied to every section's case count (VERIF_SCALE, default 1.0)
     scale: f64,
+    /// where to flush a partial report (so that a worker death does not lose earlier results)
+    partial_out: Option<PathBuf>,
+    since_flush: std::cell::Cell<u64>,
 }
 
 impl Ctx {
@@ -160,6 +163,8 @@ impl Ctx {
             single_found: false,
             max_shrink_iters: 600,
             scale,
+            partial_out: std::env::var("VCHECK_PARTIAL_OUT").ok().map(PathBuf::from),
+            since_flush: std::cell::Cell::new(0),
         }
     }
 
@@ -350,6 +355,31 @@ impl Ctx {
         path.to_string_lossy().to_string()
     }
 
+    /// Write the report accumulated so far next to the final one. The parent merges it if this
+    /// worker dies before finishing (abort, stack overflow, refused allocation, suspected hang).
+    pub fn flush_partial(&self) {
+        self.since_flush.set(0);
+        if let Some(p) = &self.partial_out {
+            let mut bytes = Vec::with_capacity(self.hashes.len() * 8);
+            for h in &self.hashes {
+                bytes.extend_from_slice(&h.to_le_bytes());
+            }
+            let tmp = p.with_extension("tmp");
+            let _ = std::fs::write(p.with_extension("hashes"), bytes);
+            if std::fs::write(&tmp, serde_json::to_vec(&self.report).unwrap_or_default()).is_ok() {
+                let _ = std::fs::rename(&tmp, p);
+            }
+        }
+    }
+
+    fn tick_flush(&self) {
+        let n = self.since_flush.get() + 1;
+        self.since_flush.set(n);
+        if n >= 2000 {
+            self.flush_partial();
+        }
+    }
+
     fn record_violation(&mut self, section: &str, index: u64, f: &Fail, replay: String) {
         if let Some(&i) = self.viol_index.get(&f.sig) {
             self.report.violations[i].count += 1;
@@ -364,6 +394,7 @@ impl Ctx {
             replay,
             count: 1,
         });
+        self.flush_partial();
     }
 
     fn harness_error(&mut self, section: &str, idx: u64, f: &Fail) {
@@ -371,6 +402,7 @@ impl Ctx {
             self.report
                 .harness_errors
                 .push(format!("section {} case {}: {} — {}", section, idx, f.sig, f.msg));
+            self.flush_partial();
         }
     }
 
@@ -387,6 +419,7 @@ impl Ctx {
         self.section_ord += 1;
         let single = matches!(self.mode, Mode::Single { .. });
         for idx in self.indices(ord, total) {
+            self.tick_flush();
             let config = Config {
                 cases: 1,
                 failure_persistence: None,
@@ -486,6 +519,7 @@ impl Ctx {
             self.report.sections.entry(name.to_string()).or_default().exhaustive = true;
         }
         for idx in self.indices(ord, total) {
+            self.tick_flush();
             let want = self.want_sample(name);
             let b = |i: &u64, rec: &mut Rec| body(*i, rec);
             let (res, rec, harness) = self.exec(ord, idx, &idx, &b, want);
